@@ -68,7 +68,8 @@ class LinearEstimator(StandardQTomographyEstimator):
                 start_time = time.time()
 
             empi_dists_tmp = [empi_dist[1] for empi_dist in empi_dists]
-            f = np.vstack(empi_dists_tmp).flatten()
+            # hstack: the empirical distributions may have different numbers of outcomes
+            f = np.hstack(empi_dists_tmp)
             v = A_ddag @ (f - b)
             # -------
             estimate_sequence.append(v)
